@@ -65,12 +65,13 @@ def rejection_sites(ck: Check, q: str) -> List[str]:
             if t == ("g", "builtin:reraise") or any(c.prov == "handler" for c in e.pc):
                 continue        # passes on (or renames) a failure that was on its way out already: not a refusal of its own
             last = [c.term for c in e.pc if c.prov == "branch"][-1:]
+            replaces_lookup_failure = False
             if last and last[0][0] == "cmp" and last[0][1] == "notin":
                 # `if k not in D: raise X` in front of `D[k]`: the look-up would have raised KeyError for the same inputs
                 from ..engine.terms import mentions as _mentions
                 sub = ("s", last[0][3], last[0][2])
                 if any(x.seq > e.seq and not x.chain and (_mentions(x.term, sub) or (x.value is not None and _mentions(x.value, sub))) for x in s.events):
-                    continue
+                    replaces_lookup_failure = True
             msg = ""
             if t[0] == "call" and t[2]:
                 a0 = t[2][0]
@@ -86,7 +87,9 @@ def rejection_sites(ck: Check, q: str) -> List[str]:
             for mark in ("%", "{"):
                 if mark in msg:
                     msg = msg[:msg.index(mark)]
-            out.add("%s: %s" % (exc_class(e).split(".")[-1], msg.strip()[:24].strip()))
+            item = "%s: %s" % (exc_class(e).split(".")[-1], msg.strip()[:24].strip())
+            # (marked: counts as new only when a recorded refusal went missing, i.e. when it is an existing raise that was changed)
+            out.add(("?" + item) if replaces_lookup_failure else item)
         elif e.kind == "call":
             for tg in e.targets:
                 if tg.startswith("skepticoin.consensus.validate_") or tg.endswith(".validate") and tg.startswith("skepticoin.signing."):
@@ -113,6 +116,11 @@ def rule_no_new_rejections(ck: Check, rule: str, prefixes: Sequence[str], what: 
             continue
         n += 1
         got = rejection_sites(ck, q)
+        plain = [a for a in got if not a.startswith("?")]
+        if all(w_ in plain for w_ in want):
+            got = plain         # every recorded refusal is still there: a raise in front of the same look-up only renames a KeyError
+        else:
+            got = [a.lstrip("?") for a in got]
         new = [a for a in got if a not in want]
         # a reworded message is not a new refusal: per exception class, only MORE distinct raise statements than recorded count
         cls_of = lambda a: a.split(":")[0] if not a.startswith("->") else a       # noqa
